@@ -829,6 +829,12 @@ pub fn check_main<P: Prop>(tier: Tier, seed: u64, workers: usize, extra: Option<
             // verdict; it does not void violations that did reproduce.
             println!("NOTE: a worker was killed (signal 9) at case {} and the case does not kill it again: machine overload, not a property of the case", f.idx);
             unrepro_varying += 1;
+        } else if stall_kind {
+            // a CPU-time threshold that was crossed once and not again in three replays (a case
+            // near the threshold on a loaded machine): alone it gives no verdict, but it does
+            // not void the violations of this run that did reproduce
+            println!("NOTE: {sig} at case {} was not slow again in {tries} executions of {use_path:?}", f.idx);
+            unrepro_varying += 1;
         } else if varies_ok {
             // no verdict from this one alone; it only counts against the run if nothing else
             // is reported (see below)
